@@ -412,6 +412,10 @@ func cSearch(c cCfg, cands []cCand, lanes [][]cOp, launches []cLaunch, ob *cObs)
 	}
 	seen := map[string]bool{}
 	out := map[string]cCand{}
+	obRet := map[int]cRes{}
+	for _, r := range ob.Ret {
+		obRet[r.T] = r.R
+	}
 	var stack []node
 	for _, cd := range cands {
 		stack = append(stack, node{s: cd.s, pos: make([]int, len(lanes)), path: cd.path})
@@ -420,6 +424,11 @@ func cSearch(c cCfg, cands []cCand, lanes [][]cOp, launches []cLaunch, ob *cObs)
 	for len(stack) > 0 {
 		n := stack[len(stack)-1]
 		stack = stack[:len(stack)-1]
+		// a thread makes one call: Done is final, so a state in which a thread has returned something else than what
+		// was observed (or has returned although it was observed parked) cannot lead to the observation
+		if !cDonesAgree(n.s, obRet) {
+			continue
+		}
 		k := fmt.Sprintf("%s#%v#%d", n.s.key(), n.pos, n.entered)
 		if seen[k] {
 			continue
@@ -495,6 +504,19 @@ func cSearch(c cCfg, cands []cCand, lanes [][]cOp, launches []cLaunch, ob *cObs)
 		res = append(res, v)
 	}
 	return res
+}
+
+func cDonesAgree(s *cState, obRet map[int]cRes) bool {
+	for t, th := range s.cs {
+		if th.st != tDone {
+			continue
+		}
+		r, ok := obRet[t]
+		if !ok || r.K != th.r.K || (r.K == 0 && r.X != th.r.X) {
+			return false
+		}
+	}
+	return true
 }
 
 // best-effort labels when no witness exists (the model and the implementation have diverged): launches first, then
@@ -604,16 +626,44 @@ func cCoqObs(ob *cObs) string {
 		strings.Join(rs, "; "), coqNatList(ob.Parked), coqNatList(ob.Stuck), ln, cl, wc)
 }
 
-func cCoqCase(c cCfg, evs []cEvent) string {
-	es := make([]string, len(evs))
-	for i, e := range evs {
-		if e.isObs {
-			es[i] = "EObs " + cCoqObs(e.ob)
-		} else {
-			es[i] = "ELab " + cCoqLabel(e.l) + " " + cCoqOut(e.o)
-		}
+func cCoqEvent(e cEvent) string {
+	if e.isObs {
+		return "EObs " + cCoqObs(e.ob)
 	}
+	return "ELab " + cCoqLabel(e.l) + " " + cCoqOut(e.o)
+}
+
+// runs of at least 4 accepted ordinary adds of consecutive items are written run-length (CAdds)
+func cCoqCase(c cCfg, evs []cEvent) string {
 	kn := []string{"KPipe", "KMQ", "KSync"}[c.Kind]
-	return fmt.Sprintf("(CCond {| knd := %s; reqmax := %d%%nat; ctrlmax := %d%%nat; nthr := %d%%nat |} [%s])",
-		kn, c.ReqMax, c.CtrlMax, c.NThr, strings.Join(es, "; "))
+	cfg := fmt.Sprintf("{| knd := %s; reqmax := %d%%nat; ctrlmax := %d%%nat; nthr := %d%%nat |}", kn, c.ReqMax, c.CtrlMax, c.NThr)
+	isRunAdd := func(e cEvent) bool {
+		return !e.isObs && e.l.Op == lAdd && e.l.W < 0 && ((e.o.K == 1 && e.o.Ares == 0) || (e.o.K == 0 && c.Kind == kSync))
+	}
+	var plain, compact []string
+	used := false
+	for i := 0; i < len(evs); {
+		j := i
+		if isRunAdd(evs[i]) {
+			for j+1 < len(evs) && isRunAdd(evs[j+1]) && evs[j+1].l.X == evs[j].l.X+1 && evs[j+1].o.K == evs[i].o.K {
+				j++
+			}
+		}
+		if j-i+1 >= 4 {
+			compact = append(compact, fmt.Sprintf("CAdds %s %s %d%%nat", cCoqOut(evs[i].o), coqZ(evs[i].l.X), j-i+1))
+			used = true
+		} else {
+			for k := i; k <= j; k++ {
+				compact = append(compact, "CE ("+cCoqEvent(evs[k])+")")
+			}
+		}
+		for k := i; k <= j; k++ {
+			plain = append(plain, cCoqEvent(evs[k]))
+		}
+		i = j + 1
+	}
+	if used {
+		return fmt.Sprintf("(CCondR %s [%s])", cfg, strings.Join(compact, "; "))
+	}
+	return fmt.Sprintf("(CCond %s [%s])", cfg, strings.Join(plain, "; "))
 }
